@@ -157,6 +157,17 @@ def _const_node_updated(A, x):
     return x * s
 
 
+def _const_node_updated_through_view(A, x):
+    # the constant node is only ever written through a VIEW of itself
+    buf = A.const(np.array([[1.0, 2.0, 4.0], [0.5, 0.25, 3.0]]))
+    row = buf[0]
+    row *= 0.5
+    row += 1.0
+    col = buf[:, 1]
+    col -= 2.0
+    return x * buf[0] + buf[1]
+
+
 def _inplace_alias(A, x):
     z = x * 1.0
     w = z
@@ -272,6 +283,22 @@ def _scratch_index_and_exponent(A, x):
     M[...] = np.array([[1., 3.], [0., 2.]])
     w = A.dot(M, w)
     return w * z
+
+
+def _scratch_index_setitem(A, x):
+    # item ASSIGNMENT through a scratch index array that is refilled between the writes; views of the
+    # overwritten entries are consumed non-linearly before the writes
+    buf = A.zeros(3, dtype=x)
+    buf[...] = x
+    idx = np.array([0, 1])
+    v = buf[0:2]
+    w = v * v
+    buf[idx] = buf[0:2] * x[2]
+    idx[:] = [1, 2]
+    w2 = buf[1:3] * buf[1:3]
+    buf[idx] = w2 * x[0]
+    idx[:] = [0, 0]
+    return buf * A.sum(w)
 
 
 def _paused(A, x):
@@ -398,6 +425,7 @@ def catalogue():
     add('augmented assignment through a second name', _inplace_alias, dom='nonzero', group='buffer')
     add('**= through a view of a buffer', _ipow_through_view, group='buffer')
     add('constant node updated in place', _const_node_updated, group='buffer')
+    add('constant node updated through views of itself', _const_node_updated_through_view, group='buffer')
     add('augmented assignment on a 0-d accumulator', _accumulator_0d, group='buffer')
     add('x*x.flat[3]', _flat_read, shape=(2, 2), group='index')
     add('scratch ndarray constant re-used during recording', _scratch_constant, group='buffer')
@@ -408,6 +436,7 @@ def catalogue():
     add('buffer, item assignment through index lists and masks', _setitem_advanced, group='buffer')
     add('write through real() of a real-valued node', _real_of_real_alias, group='buffer')
     add('scratch index / exponent / matrix constants re-used during recording', _scratch_index_and_exponent, dom='pos', group='buffer')
+    add('item assignment through a scratch index array refilled between writes', _scratch_index_setitem, group='buffer')
     add('paused recording', _paused, group='buffer')
     add('paused recording twice', _paused_twice, group='buffer')
     add('prod(x)+sum(x*x)', lambda A, x: A.prod(x) + A.sum(x * x), group='reduce')
@@ -424,6 +453,10 @@ def catalogue():
     add('sum(axis=-1)', lambda A, x: A.sum(x * x, axis=-1), shape=(2, 3), group='reduce')
     add('sum(square,axis=0)', lambda A, x: A.sum(x * x, axis=0), shape=(2, 2), group='reduce')
     add('sum(vec,axis=0)', lambda A, x: A.sum(x * x, axis=0), group='reduce')
+    # full reductions of views that cannot be flattened without a copy
+    add('sum(x.T)*sum((x*x).T)', lambda A, x: A.sum(x.T) * A.sum((x * x).T), shape=(2, 3), group='reduce')
+    add('sum(w[:, :2])+sum(w[::2, :])', lambda A, x: A.sum((x * x)[:, :2]) + A.sum((x * x)[::2, :]) * x[0, 0], shape=(3, 3), group='reduce')
+    add('prod(x[::-1])*sum(x[::2])', lambda A, x: A.prod(x[::-1]) * A.sum(x[::2]), group='reduce')
     add('sum(rank3,axis=1)', lambda A, x: A.sum(x * x, axis=1) * A.c['w'], shape=(2, 3, 2), group='reduce', consts={'w': (2, 2)})
     add('sum(rank3,axis=0)*sum(axis=-2)', lambda A, x: A.sum(x, axis=0) * A.sum(x * x, axis=-3), shape=(2, 3, 2), group='reduce')
     add('x.sum(axis=0) method, tall', lambda A, x: x.sum(axis=0) * A.c['w'], shape=(3, 2), group='reduce', consts={'w': (2,)})
